@@ -1536,8 +1536,9 @@ class Protocol(utils.EventEmitter):
         )  # Enough space for a 3-byte start packet header
         payload = message.payload
         if len(payload) + 2 <= self.l2cap_channel.peer_mtu:
-            # Fits in a single packet
+            # Fits in a single packet, which has a 2-byte header
             packet_type = self.PacketType.SINGLE_PACKET
+            max_fragment_size = self.l2cap_channel.peer_mtu - 2
         else:
             packet_type = self.PacketType.START_PACKET
 
